@@ -51,7 +51,11 @@ def mainCurvaturesAtDesignPoint( dim, g, dg, distObjs, corrMat,
     lsfGradAtU = np.dot( JInv.T, lsfGradAtX )
     lsfGradNormAtU = np.linalg.norm( lsfGradAtU )
     alignVec = -1 * lsfGradAtU / lsfGradNormAtU
-    A = np.eye( dim )
+    # alignVec replaces the first column of A: put the coordinate direction with the
+    # largest component of alignVec there so that the remaining columns stay independent
+    # of alignVec ( a limit state may not depend on the first variable at all )
+    kMax = int( np.argmax( np.abs( alignVec ) ) )
+    A = np.eye( dim )[ :, [ kMax ] + [ idx for idx in range( dim ) if idx != kMax ] ]
     B, _ = gramSchmidOrth( A, alignVec=alignVec )
     H = np.array( B[ :, [ idx for idx in range( 1, dim )] + [ 0 ] ], dtype=float ).T
 
